@@ -27,7 +27,7 @@ def valid_frame(rng, a):
 
 class C19(PropBase):
     id = "C19"
-    lean_modules = ["SqModel.Props.C19", "SqModel.Props.C19Table", "SqModel.Props.C19Obs", "SqModel.Proofs.Dispatch", "SqModel.Proofs.Bridge", "SqModel.Proofs.BridgePlane"]
+    lean_modules = ["SqModel.Props.C19", "SqModel.Props.C19Table", "SqModel.Props.C19Obs", "SqModel.Proofs.Dispatch", "SqModel.Proofs.Bridge", "SqModel.Proofs.BridgePlane", "SqModel.Proofs.BridgeTable"]
     extractors = ["dispatch", "trans"]
     rule = ("histories of 30-200 generated frames of every format (and the first 3000 lines of three recorded files) run through "
             "the real reader under pairs of option sets differing only in -i, -o, -c, -u, -M, -D, -l: dumps must be identical; short histories with back-to-back repeated frames after a silent aircraft under the logging options; pairs "
